@@ -7,5 +7,6 @@ CONSTANTS
   CloseLatches = TRUE
   TimeoutReleases = FALSE
   HandlerControlPath = FALSE
+  TimeoutFaultLatches = TRUE
 INVARIANTS TypeOK MsgIntact
 CHECK_DEADLOCK FALSE
